@@ -76,6 +76,9 @@ pub struct Scenario {
     pub lock_points: bool,
     /// an extra thread constructs a new SqliteStorage on the same directory meanwhile
     pub constructor_thread: bool,
+    /// which client each thread speaks for (empty = all client A). Client A starts in the
+    /// scenario's initial state; any other client is unknown to the server at the start.
+    pub clients: Vec<u8>,
 }
 
 impl Scenario {
@@ -87,6 +90,7 @@ impl Scenario {
             "entry": if self.http { "http" } else { "library" },
             "lock_points": self.lock_points,
             "constructor_thread": self.constructor_thread,
+            "clients": self.clients,
         })
     }
     pub fn from_json(v: &Value) -> Option<Scenario> {
@@ -102,12 +106,14 @@ impl Scenario {
             http: v["entry"].as_str()? == "http",
             lock_points: v["lock_points"].as_bool().unwrap_or(false),
             constructor_thread: v["constructor_thread"].as_bool().unwrap_or(false),
+            clients: v["clients"].as_array().map(|a| a.iter().map(|x| x.as_u64().unwrap_or(0) as u8).collect()).unwrap_or_default(),
         })
     }
     pub fn key(&self) -> String {
         let mut ks: Vec<String> = self.threads.iter().map(|t| t.iter().map(|k| k.name()).collect::<Vec<_>>().join("+")).collect();
         ks.sort();
-        format!("{}|{}|{}|{}", self.to_json()["backend"].as_str().unwrap(), if self.http { "http" } else { "library" }, self.init, ks.join(" || "))
+        let cl = if self.clients.iter().any(|c| *c != 0) { format!("|clients{:?}", self.clients) } else { String::new() };
+        format!("{}|{}|{}|{}{}", self.to_json()["backend"].as_str().unwrap(), if self.http { "http" } else { "library" }, self.init, ks.join(" || "), cl)
     }
 }
 
@@ -459,9 +465,9 @@ fn build_initial(storage: &Arc<dyn Storage>, init: &str, seed: u64) -> (Model, S
     (model, tab)
 }
 
-fn concretize(kind: RKind, model: &Model, tab: &mut SymTab, seed: u64, thread: usize, idx: usize) -> Req {
-    let c = client_uuid(seed, 0);
-    let cl = model.client(0);
+fn concretize(kind: RKind, model: &Model, tab: &mut SymTab, seed: u64, thread: usize, idx: usize, cid: u8) -> Req {
+    let c = client_uuid(seed, cid);
+    let cl = model.client(cid);
     let latest = cl.map(|c| c.latest()).unwrap_or(NIL);
     let first = cl.and_then(|c| c.chain.first().map(|v| v.id));
     let payload = format!("t{thread}r{idx}").into_bytes();
@@ -585,7 +591,8 @@ impl Runner {
         // requests
         let mut reqs: Vec<Vec<(RKind, Req)>> = vec![];
         for (t, ks) in sc.threads.iter().enumerate() {
-            reqs.push(ks.iter().enumerate().map(|(i, k)| (*k, concretize(*k, &model0, &mut tab0, self.seed, t, i))).collect());
+            let cid = sc.clients.get(t).copied().unwrap_or(0);
+            reqs.push(ks.iter().enumerate().map(|(i, k)| (*k, concretize(*k, &model0, &mut tab0, self.seed, t, i, cid))).collect());
         }
         self.vfs.lock_points.store(sc.lock_points, Ordering::SeqCst);
         let sched = Sched::new(nthreads, prefix.to_vec(), 4000);
@@ -740,7 +747,7 @@ impl Runner {
                 ids.push(*id);
             }
         }
-        let clients = [client_uuid(self.seed, 0)];
+        let clients = [client_uuid(self.seed, 0), client_uuid(self.seed, 1)];
         let mut final_dump = dump_api(&storages[0], &clients, &ids);
         if let Some(d) = &dir {
             let raw = dump_sql_raw(d);
@@ -781,20 +788,24 @@ fn symbolize(tab: &mut SymTab, resp: &Resp, new_sid: u32) -> SResp {
     }
 }
 
-fn model_apply(m: &mut Model, tab: &SymTab, req: &Req, http: bool) -> MResp {
+fn model_apply(m: &mut Model, tab: &SymTab, req: &Req, http: bool, seed: u64) -> MResp {
     let sid = |u: &Uuid| tab.sid(*u).unwrap_or(UNKNOWN_SID - 1);
+    let cu = match req {
+        Req::AddVersion { c, .. } | Req::GetChild { c, .. } | Req::AddSnapshot { c, .. } | Req::GetSnapshot { c } => *c,
+    };
+    let cid: u8 = if cu == client_uuid(seed, 1) { 1 } else { 0 };
     match req {
-        Req::AddVersion { parent, data, .. } => m.add_version(0, sid(parent), data, http),
-        Req::GetChild { parent, .. } => m.get_child(0, sid(parent)),
-        Req::AddSnapshot { v, data, .. } => match m.snapshot_decision(0, sid(v)) {
+        Req::AddVersion { parent, data, .. } => m.add_version(cid, sid(parent), data, http),
+        Req::GetChild { parent, .. } => m.get_child(cid, sid(parent)),
+        Req::AddSnapshot { v, data, .. } => match m.snapshot_decision(cid, sid(v)) {
             None => MResp::NoSuchClient,
             Some(d) => {
                 // the unspecified corner (v = non-nil chain base) does not occur in these scenarios
-                m.add_snapshot_apply(0, sid(v), data, d == SnapDecision::Replace);
+                m.add_snapshot_apply(cid, sid(v), data, d == SnapDecision::Replace);
                 MResp::SnapOk
             }
         },
-        Req::GetSnapshot { .. } => m.get_snapshot(0),
+        Req::GetSnapshot { .. } => m.get_snapshot(cid),
     }
 }
 
@@ -854,7 +865,7 @@ pub fn judge(ex: &Execution, http: bool, seed: u64) -> Verdict {
         for &i in &p {
             let o = &ex.observed[i];
             let ns = m.next_sid;
-            let want = model_apply(&mut m, &tab, &o.req, http);
+            let want = model_apply(&mut m, &tab, &o.req, http, seed);
             let got = symbolize(&mut tab, &o.resp, ns);
             if let Err(e) = resp_matches(&want, &got, http) {
                 if why_not.len() < 6 {
@@ -867,15 +878,16 @@ pub fn judge(ex: &Execution, http: bool, seed: u64) -> Verdict {
         let mut sd = crate::model::SymDump::default();
         let mut an = ex.final_dump.anomalies.clone();
         for (c, (latest, snap)) in &ex.final_dump.clients {
-            let _ = c;
-            sd.clients.insert(0, crate::model::SymClient { latest: tab.sid_or_unknown(*latest), snapshot: snap.as_ref().map(|(v, since, _ts, data)| crate::model::SymSnap { version: tab.sid_or_unknown(*v), since: *since, age_days: 0, data: data.clone() }) });
+            let cid: u8 = if *c == client_uuid(seed, 1) { 1 } else { 0 };
+            sd.clients.insert(cid, crate::model::SymClient { latest: tab.sid_or_unknown(*latest), snapshot: snap.as_ref().map(|(v, since, _ts, data)| crate::model::SymSnap { version: tab.sid_or_unknown(*v), since: *since, age_days: 0, data: data.clone() }) });
         }
-        for (_, v, pa, data) in &ex.final_dump.versions {
+        for (c, v, pa, data) in &ex.final_dump.versions {
+            let cid: u8 = if *c == client_uuid(seed, 1) { 1 } else { 0 };
             let vs = tab.sid_or_unknown(*v);
             if vs == UNKNOWN_SID {
                 an.push(format!("stored version {v} was never acknowledged"));
             }
-            sd.versions.insert((0, vs, tab.sid_or_unknown(*pa), data.clone()));
+            sd.versions.insert((cid, vs, tab.sid_or_unknown(*pa), data.clone()));
         }
         match dump_matches(&m, &sd, &an) {
             Ok(()) => return Verdict { ok: true, class: "linearizable".into(), msg: String::new(), outcome },
@@ -886,13 +898,12 @@ pub fn judge(ex: &Execution, http: bool, seed: u64) -> Verdict {
             }
         }
     }
-    let _ = seed;
     // classify
     let errs: Vec<&Observed> = ex.observed.iter().filter(|o| o.resp.is_failure()).collect();
     let mut parents = std::collections::HashSet::new();
     let mut fork = false;
-    for (_, _, p, _) in &ex.final_dump.versions {
-        if !parents.insert(*p) {
+    for (c, _, p, _) in &ex.final_dump.versions {
+        if !parents.insert((*c, *p)) {
             fork = true;
         }
     }
